@@ -2,8 +2,21 @@
 
 PROPS = {}
 
+# commits in /repo that add the build-tag-guarded hooks
+HOOK_COMMITS = ["9f732f2"]
+
+# properties deliberately not claimed, with the reason (none so far: unclaimed ones are simply not built yet)
+NOT_APPLICABLE = {}
+
 PROPS["C19"] = dict(
     level="exploration",
+    manifest=dict(
+        text=("Model-based testing of both tries against map[string]string: exhaustive over all operation sequences up to "
+              "length 4 (quick) / 5 (thorough) on the five keys of the quantifier with dump/load at every position, seeded "
+              "random sequences (rapid, shrinking) over generated key sets beyond that. Exhaustive only inside that bound."),
+        note="Trusted: Go toolchain, rapid, the map model and comparison in harness/c19. Keys are wildcard-free topic names.",
+        technique="model-based property testing: exhaustive small-scope enumeration + rapid generated sequences against a map oracle",
+    ),
     rule=("cases are operation sequences (write v1/v2, remove, upsert-append, dump->Load) on topics.Store / "
           "subscriptions.Tree compared with a map[string]string after every step; exhaustive part: all sequences "
           "up to length L (4 quick / 5 thorough) over keys a, a/b, a/b/c, a/c, b; random part: 1-12 steps over "
@@ -20,5 +33,34 @@ PROPS["C19"] = dict(
         dict(name="enum", pkg="c19", run="TestEnum", shards=dict(quick=1, thorough=16), timeout=dict(quick=300, thorough=1500)),
         dict(name="random", pkg="c19", run="TestRandom", checks=dict(quick=40000, thorough=1600000),
              shards=dict(quick=4, thorough=16), timeout=dict(quick=300, thorough=1500)),
+    ],
+)
+
+PROPS["C06"] = dict(
+    level="exploration",
+    manifest=dict(
+        text=("Model-based testing of the identifier allocator against a set of outstanding ids: every Get/Put history up to a "
+              "depth bound on five small ranges (with a drain read-out of the reached state), plus seeded random burst "
+              "histories on the production range 0..65535 including complete exhaustion. Exhaustive only inside the bound."),
+        note="Trusted: Go toolchain, rapid, the set model in harness/c06, the verif hook exporting the unchanged constructor.",
+        technique="model-based property testing: exhaustive history enumeration + rapid generated histories against a set oracle",
+    ),
+    rule=("cases are Get/Put histories on the packet-id allocator compared with a set of outstanding ids (Get must "
+          "return a free id of the range, or an out-of-range value only when the range is exhausted; Put of a free/"
+          "unknown/out-of-range id changes nothing; no panic), each followed by a drain read-out (allocate until "
+          "exhaustion: exactly the model's free ids, each once). Exhaustive part: all histories up to depth D on the "
+          "ranges 0..2, 1..3, 1..5, 0..5, 3..8 with Put arguments min-1..max+1; random part: burst-structured "
+          "histories on 0..65535, 1..65535 and small ranges, including filling the whole production range. "
+          "Non-trivial = a Put joins two free runs, or exhaustion is reached. Distinct = distinct (range, history)."),
+    assumptions=[
+        "the allocator is reached through the verif hook wasp.VerifNewMIDPool (same constructor the writer uses)",
+        "'exhaustion' is any return value outside [min,max]",
+        "ids on the wire (writer level) are checked under C03",
+    ],
+    runs=[
+        dict(name="regress", pkg="c06", run="TestRegress"),
+        dict(name="enum", pkg="c06", run="TestEnum", shards=dict(quick=4, thorough=16), timeout=dict(quick=300, thorough=1800)),
+        dict(name="random", pkg="c06", run="TestRandom", checks=dict(quick=6000, thorough=200000),
+             shards=dict(quick=6, thorough=16), timeout=dict(quick=300, thorough=1800)),
     ],
 )
